@@ -168,6 +168,16 @@ CLAIMED = {
         "read simulator; precision 1e-2 as in aldy.common; items exceeding 40 s are counted as skipped",
         "DESIGN.md section 4 C10",
     ),
+    "C17": (
+        "history monitor: CLI run with --debug followed by CLI run on the archive; genotype() return values captured by rebinding the early-bound aldy.__main__.genotype; output files compared",
+        "For simulated samples (generated databases with indels, fusions, a fractional extra copy, paired reads, "
+        "parameters given on the command line, unidentifiable BAM headers with and without --genome; shipped CYP2A6 / "
+        "CYP2C19 / GSTM1 with exome-family and illumina profiles and 1-3 copies; NA10860 in the thorough tier) the real CLI "
+        "is run with --debug and then on the produced archive with the same arguments; structures, major and minor "
+        "solutions, all three score levels, sample name and the output file of the two runs must be equal.",
+        "scores compared at 1e-6 relative",
+        "DESIGN.md section 4 C17",
+    ),
 }
 
 NOT_YET = {}
